@@ -49,9 +49,9 @@ CLAIMED = {
              "deletes never reach the ring and those commands end the run; yank inserts the text at the cursor; yank-pop replaces "
              "exactly the bytes the yank inserted, by the previous slot, cyclically, and only directly after a yank or yank-pop; a "
              "kill that starts a run goes into the slot after the MOST RECENT kill wherever yank-pop has rotated to and touches "
-             "no other slot (K1 repaired). PARTIAL: the chronology of slots across many kills is decided by the reference-ring "
-             "oracle and the correspondence; known finding K2 (yank with a count then yank-pop; recorded, class excluded).",
-        note=TTY_NOTE + "The KNOWN-FINDING line K2 is printed while its witness reproduces.",
+             "no other slot (K1 repaired). PARTIAL: the chronology of slots across many kills and yank with a count followed by "
+             "yank-pop (K2, repaired: all copies are replaced) are decided by the reference-ring oracle and the correspondence.",
+        note=TTY_NOTE,
         technique="Coq proof: induction over the kill run (inductive relation for pieces around the cursor), case analysis of the ring arithmetic; extracted-model differential check through a pty + reference-ring oracle"),
     "C07": dict(
         text="Theorems over the editor model: the stored history is read-only -- for EVERY input, mode, helper and binding the main "
